@@ -710,10 +710,18 @@ func RunStreamCapture(em *Emitter, tr int, st *Stream, capt *Capture) {
 			ld.rec.max = ld.rec.cur
 			// a batch that continues a sub-stream this consumer has a hole in (it refused an earlier batch of it) is
 			// an IPC stream with missing messages: outside the domain, as for C07
+			// (Consume walks the payloads in order and stops at the first reader that is in its sticky error state: a
+			// batch whose first affected payload belongs to such a reader never reaches the readers with holes and
+			// is judged; one that reaches a reader with a hole first is not.)
 			state := boolp(ld.refused)
+			before := consumerStates(ld.c)
 			for _, pl := range bar.ArrowPayloads {
+				if HaveProjection && before[pl.SchemaId] == "err" {
+					break
+				}
 				if ld.gapped[pl.SchemaId] {
 					state = 2
+					break
 				}
 			}
 			out, n, doc, dmsg, isLimit := decode(ld.c, sig, proto.Clone(bar).(*colarspb.BatchArrowRecords))
@@ -735,8 +743,21 @@ func RunStreamCapture(em *Emitter, tr int, st *Stream, capt *Capture) {
 				// keep feeding the consumer: every later batch must again be decoded completely or
 				// refused with the recognisable error; only its telemetry is no longer comparable
 				ld.refused = true
-				for _, pl := range bar.ArrowPayloads {
-					ld.gapped[pl.SchemaId] = true
+				// the payloads after the one whose reader raised the error were never handed to their readers
+				after := consumerStates(ld.c)
+				failed := -1
+				if HaveProjection {
+					for i, pl := range bar.ArrowPayloads {
+						if st := after[pl.SchemaId]; st == "err" || st == "unopened" {
+							failed = i
+							break
+						}
+					}
+				}
+				for i, pl := range bar.ArrowPayloads {
+					if !HaveProjection || (failed >= 0 && i > failed) {
+						ld.gapped[pl.SchemaId] = true
+					}
 				}
 			}
 		}
